@@ -11,6 +11,7 @@
    whole row of points flattened into one coordinate list (the helper itself cannot zip nested rows). *)
 From Coq Require Import List QArith Reals Lia Arith Bool ZArith.
 From NV Require Import Scalar.Ops Model.Common Model.Degree Proofs.DegreeR Proofs.DegreeLift.
+From NV Require Import Proofs.DegreeGenSums Proofs.DegreeGeneral.
 Import ListNotations.
 
 (* the curve of a polygon: coordinate c of  sum_i B_{i,n}(x) P_i  is  bezier n (coord c P) x *)
@@ -90,3 +91,48 @@ Example C08_hypotheses_satisfiable :
   | _ => False
   end.
 Proof. cbv zeta. split; [repeat constructor|vm_compute; split; reflexivity]. Qed.
+
+(* ====================== general degree and count (round 2, Proofs/DegreeGeneral.v) ====================== *)
+(* [G] the model's binomial coefficient is k!/(i!(k-i)!), 0 for i > k (the formula of linalg.binomial_coefficient) *)
+Theorem C08_binomial_coefficient_is_choose : forall k i,
+  binomial_coefficient Rops k i = if (i <=? k)%nat then (INR (fact k) / (INR (fact i) * INR (fact (k - i))))%R else 0%R.
+Proof. exact binomial_coefficient_is_choose. Qed.
+Print Assumptions C08_binomial_coefficient_is_choose.
+
+(* [G] every degree, every positive count: the former Definition C08_elevation_preserves_bezier_full is now a theorem *)
+Theorem C08_elevation_preserves_bezier_general : C08_elevation_preserves_bezier_full.
+Proof. intros p t _ a Ha x. apply elevation_preserves_bezier_general. exact Ha. Qed.
+Print Assumptions C08_elevation_preserves_bezier_general.
+
+(* [G] points of any dimension *)
+Theorem C08_elevation_preserves_bezier_pts_general : forall p t, (1 <= t)%nat ->
+  forall d (P Q : list (list R)), Forall (fun pt => length pt = d) P ->
+  degree_elevation_pts Rops p P (Z.of_nat t) = Ok Q ->
+  forall c x, (c < d)%nat -> bezier (p + t) (coord c Q) x = bezier p (coord c P) x.
+Proof. exact elevation_preserves_bezier_pts_general. Qed.
+Print Assumptions C08_elevation_preserves_bezier_pts_general.
+
+(* [G] elevation by one is the classical convex-combination formula *)
+Theorem C08_elevation_by_one_formula : forall p a i, length a = (p + 1)%nat -> (i <= p + 1)%nat ->
+  nth i (degree_elevation_sc Rops p a 1) 0%R =
+  (INR i / INR (p + 1) * nth (i - 1) a 0 + (1 - INR i / INR (p + 1)) * nth i a 0)%R.
+Proof. exact elevation_by_one_formula. Qed.
+Print Assumptions C08_elevation_by_one_formula.
+
+(* [G] elevation by t+1 is one more elevation by one *)
+Theorem C08_elevation_succ : forall p t a, length a = (p + 1)%nat ->
+  degree_elevation_sc Rops (p + t) (degree_elevation_sc Rops p a t) 1 = degree_elevation_sc Rops p a (S t).
+Proof. exact elevation_succ. Qed.
+Print Assumptions C08_elevation_succ.
+
+(* [G] every degree p >= 1, every count t >= 1: t reductions return the original polygon (scalars and points) *)
+Theorem C08_reduction_inverts_elevation_scalar_general : forall t p a, (1 <= p)%nat -> (1 <= t)%nat ->
+  length a = (p + 1)%nat -> reduce_n t (p + t) (degree_elevation_sc Rops p a t) = a.
+Proof. exact reduction_inverts_elevation_general. Qed.
+Print Assumptions C08_reduction_inverts_elevation_scalar_general.
+
+Theorem C08_reduction_inverts_elevation_general : forall p t, (1 <= p)%nat -> (1 <= t)%nat ->
+  forall d (P Q : list (list R)), (0 < d)%nat -> Forall (fun pt => length pt = d) P ->
+  degree_elevation_pts Rops p P (Z.of_nat t) = Ok Q -> reduce_n_pts t (p + t) Q = Ok P.
+Proof. exact reduction_inverts_elevation_pts_general. Qed.
+Print Assumptions C08_reduction_inverts_elevation_general.
